@@ -362,3 +362,20 @@ func (g *Gen) Applied(cands []*GTx, included [][]byte, statuses []string) {
 		}
 	}
 }
+
+// Clone copies the generator state (for a branch forking off) with a new PRNG.
+func (g *Gen) Clone(r *rand.Rand) *Gen {
+	n := &Gen{W: g.W, R: r, Nonce: map[int]uint64{}, NameOwner: map[string]int{}, Staked: map[int]bool{}, nameSeq: g.nameSeq, Kinds: g.Kinds}
+	for k, v := range g.Nonce {
+		n.Nonce[k] = v
+	}
+	for k, v := range g.NameOwner {
+		n.NameOwner[k] = v
+	}
+	for k, v := range g.Staked {
+		n.Staked[k] = v
+	}
+	n.Names = append([]string(nil), g.Names...)
+	n.Contracts = append([]Contract(nil), g.Contracts...)
+	return n
+}
